@@ -4,7 +4,7 @@ from __future__ import annotations
 import ast
 
 from ..cfg import CFG
-from ..engine import AnalysisError, PropertySpec, norm
+from ..engine import AnalysisError, MechanismMissing, PropertySpec, norm
 from ..pyutil import call_name, calls, is_name, literal, walk_local
 
 GEN = "src/pymoca/backends/casadi/generator.py"
@@ -98,7 +98,7 @@ def r23_1(ctx, rep):
                            "`%s` turns a 1-based Modelica subscript into a 0-based index without a dominating range check on %s: "
                            "index 0 wraps to the last element / an out-of-range slice silently selects fewer elements" % (norm(b), missing))
     if total < 3:
-        raise AnalysisError(R, "fewer than 3 index conversions found")
+        raise MechanismMissing(R, "fewer than 3 index conversions found")
 
 
 def _true_branch_raises(cfg, assume_false) -> bool:
